@@ -92,3 +92,37 @@ def file_id_counter_single_fetch_add(repo):
     if other:
         return False, "NEXT is accessed outside FileId::new/reset: %s" % other
     return True, "FileId::new reads and advances NEXT with a single atomic fetch_add(1); no other access besides reset()'s store"
+
+
+@frame("grammar_uses_primitives_only")
+def grammar_uses_primitives_only(repo):
+    """The ~55 grammar functions that are not extracted reach the tree and the lexer only through the verified
+    primitives: outside ty.rs, nothing under parser/grammar/ calls pop / push_token / eat / next_token or touches
+    the fields pending, current_token, builder, lexer, errors, accept_errors."""
+    bad = []
+    pat = re.compile(r"\.\s*(pop|push_token|eat|next_token)\s*\(|\.\s*(pending|current_token|builder|lexer|errors|accept_errors)\b(?!\s*\()")
+    for rel in _files(repo, "crates/apollo-parser/src/parser/grammar"):
+        if rel.endswith("/ty.rs"):
+            continue
+        sf, mask = _non_test(repo, rel)
+        for m in pat.finditer(mask):
+            bad.append("%s@%d:%s" % (rel, mask.count("\n", 0, m.start()) + 1, m.group(0).strip()))
+    if bad:
+        return False, "grammar code touches tokens/tree directly: %s" % bad[:8]
+    return True, "grammar/*.rs (except ty.rs, which is extracted) use only the Parser primitives under contract"
+
+
+@frame("document_ends_with_flush")
+def document_ends_with_flush(repo):
+    """document() ends with push_ignored() then finishing the DOCUMENT node; Parser::parse calls document() first."""
+    sf = SourceFile(repo, "crates/apollo-parser/src/parser/grammar/document.rs")
+    it = sf.find("fn", "document")
+    body = " ".join(mask_source(it.text).split())
+    if not body.endswith("p.push_ignored(); doc.finish_node(); }"):
+        return False, "document() no longer ends with `p.push_ignored(); doc.finish_node();`"
+    sf2 = SourceFile(repo, "crates/apollo-parser/src/parser/mod.rs")
+    it2 = sf2.find("fn", "parse", r"Parser<'input>")
+    b2 = " ".join(mask_source(it2.text).split())
+    if "{ grammar::document::document(&mut self);" not in b2:
+        return False, "Parser::parse no longer starts with grammar::document::document(&mut self)"
+    return True, "document() ends with push_ignored(); Parser::parse runs document() first"
